@@ -172,6 +172,8 @@ def run(ck: Check):
         one("jsstr", data)
         one("attrs", data)
     model = run_model(cases, shards=16)
+    from coqlit import xcheck
+    xcheck(ck, cases, model)
     for c, m, i in zip(cases, model, impl):
         if m != i:
             ck.mismatch(c.split()[1], c, m, i)
